@@ -28,14 +28,13 @@ def load_specs():
     return mod.M
 
 
+# fix commit (short hash) -> checks expected to flag its reverse
 REVERT_TARGETS = {
-    "garbage_collector_strips": ["C05"], "do_not_record_column_bounds": ["C13", "C12"],
-    "inflight_marker_lis": ["C07"], "FileLock_never": ["C04"], "version_hint_names_a": ["C07"],
-    "reject_fractional": ["C11"], "reads_inflight_markers_before": ["C06"], "S3_list_files": ["C20", "C05"],
-    "asynchronous_interrupt": ["C04"], "last_updated_ms": ["C01"], "legacy_JSON": ["C07", "C14"],
-    "filters_in_memory": ["C12"], "validate_scan_filters": ["C12"], "reorders_or_renu": ["C11"],
-    "ETag_before": ["C08"], "table_root_itself": ["C17"], "unreadable_inflight_marker": ["C07"],
-    "hint_nonascii": ["C10"],
+    "98fdde6": ["C12"], "12b21b2": ["C13"], "175584e": ["C07"], "e31a3e2": ["C07"], "8b6a369": ["C07", "C14"],
+    "9ea3ec6": ["C11"], "86fd56c": ["C01"], "5a9857a": ["C06"], "9282647": ["C12"], "77fc523": ["C20", "C05"],
+    "ce57551": ["C17"], "86868c5": ["C04"], "32ac457": ["C04"], "a0899d1": ["C10"], "448bbba": ["C10"],
+    "68693ca": ["C05"], "0be4aa4": ["C10"], "4e5b07e": ["C11"], "7c3cdbd": ["C02"], "1d85807": ["C06"],
+    "7670dc1": ["C15"], "ded7f71": ["C05", "C09"], "80fcf3f": ["C07", "C10"],
 }
 
 
@@ -102,8 +101,13 @@ def main() -> int:
     muts = list(load_specs())
     for p in sorted(glob.glob(str(VERIF / "mutants" / "revert_*.diff"))):
         name = os.path.basename(p)[:-5]
-        targets = next((v for k, v in REVERT_TARGETS.items() if k in name), None)
-        if targets:
+        targets = next((v for k, v in REVERT_TARGETS.items() if f"revert_{k}" in name), None)
+        if targets is None and name.startswith("revert_"):
+            targets = []
+        if targets is not None:
+            if not targets:
+                print("WARNING: no target checks registered for", name)
+                continue
             muts.append({"name": name, "checks": targets, "patch": p})
     for d in sorted(glob.glob(str(VERIF / "seeded" / "*"))):
         meta = os.path.join(d, "meta.json")
